@@ -4,7 +4,14 @@
    the target's setter (SubFieldView.__setitem__ checked by OverflowError, or a numpy field assignment of the same dtype).
    The names, storage fields, dtypes and bit masks all come from Gen/GenDims.v (tables of the running module).
    Values are Z: integers by value, floating point fields by their bit pattern (same-dtype numpy copies are bit copies).
-   Extra dimensions are (name, descriptor bytes, width) + raw bytes per point; VLRs are (is ExtraBytesVlr, bytes). *)
+   Extra dimensions are (name, descriptor bytes, width) + raw bytes per point; VLRs are (is ExtraBytesVlr, bytes).
+   NAMES. An extra dimension may carry ANY name numpy accepts next to the packed fields of its own format: the name of a
+   standard dimension of another format, of a bit-packed sub-field (of the source or of the target format), a legacy alias
+   (OLD_LASPY_NAMES), a scaled coordinate "x". The rule modelled here: (1) the new record's dtype is the target's packed
+   fields followed by the extra dimensions, and numpy refuses a repeated field name (ValueError) - so an extra dimension
+   named like a packed field of the TARGET makes the conversion fail, after the version rule and before any value is
+   copied; (2) otherwise a standard dimension is copied from the source's standard dimension of that name and an extra
+   dimension from the source's extra dimension of that name, never across the two kinds. *)
 From Coq Require Import String.
 From Coq Require Import ZArith List Bool.
 From LasV Require Import Lib.Base Gen.GenFormatBits Gen.GenDims Model.SubField Model.HeaderOps.
@@ -36,6 +43,11 @@ Definition subs_in (f : Z) (c : string) : list (string * string * Z) :=
 Definition dim_names (f : Z) : list string :=
   flat_map (fun x => match subs_in f (fld_name x) with [] => [fld_name x] | l => map (fun sf => fst (fst sf)) l end) (fmt_fields f).
 Definition std_ids : list Z := map (fun r => fst (fst r)) point_formats.
+
+(* ---------------- the numpy record: packed fields then extra dimensions, no repeated name ---------------- *)
+Definition mem (n : string) (l : list string) : bool := existsb (String.eqb n) l.
+Fixpoint nodupb (l : list string) : bool :=
+  match l with [] => true | a :: r => negb (mem a r) && nodupb r end.
 
 (* ---------------- one point: packed standard fields by name ---------------- *)
 Definition spoint := list (string * Z).
@@ -93,6 +105,12 @@ Definition copy_ext (eds : list edim) (src : list (list Z)) : list (list Z) :=
                 | None => repeat 0 (Z.to_nat (ed_width e))
                 end) eds.
 
+(* PointFormat.dtype(): np.dtype(packed fields of the format ++ [(name, type) of every extra dimension]) raises
+   ValueError("field '...' occurs more than once") when a name is repeated *)
+Definition record_names (f : Z) (eds : list edim) : list string := storage_names f ++ map ed_name eds.
+Definition dtype_ok (f : Z) (eds : list edim) : bool := nodupb (record_names f eds).
+Definition clashb (f : Z) (eds : list edim) : bool := existsb (fun e => mem (ed_name e) (storage_names f)) eds.
+
 Definition point := (spoint * list (list Z))%type.
 Definition convert_point (S T : Z) (eds : list edim) (p : point) : result point :=
   do sp <- copy_std S T (fst p); Ok (sp, copy_ext eds (snd p)).
@@ -116,14 +134,15 @@ Definition eb_part (eds : list edim) : list cvlr :=
 
 Definition convert (l : lasdata) (tgt : option Z) (ver : option (Z * Z)) : result lasdata :=
   do hs <- hstep (mkHS (l_ver l) (l_fmt l)) (HConvert tgt ver);
-  do pts <- mapM (convert_point (l_fmt l) (hs_f hs) (l_edims l)) (l_pts l);
-  Ok (mkLas (hs_v hs) (hs_f hs) (l_edims l) pts (user_vlrs (l_vlrs l) ++ eb_part (l_edims l)) (l_evlrs l)).
+  if dtype_ok (hs_f hs) (l_edims l) then
+    do pts <- mapM (convert_point (l_fmt l) (hs_f hs) (l_edims l)) (l_pts l);
+    Ok (mkLas (hs_v hs) (hs_f hs) (l_edims l) pts (user_vlrs (l_vlrs l) ++ eb_part (l_edims l)) (l_evlrs l))
+  else Err EValue.
 (* the function is pure: what the caller holds afterwards is its argument and the result *)
 Definition convert_io (l : lasdata) (tgt : option Z) (ver : option (Z * Z)) : lasdata * result lasdata :=
   (l, convert l tgt ver).
 
 (* lost_dimensions: set(in) filtered by membership in set(out) *)
-Definition mem (n : string) (l : list string) : bool := existsb (String.eqb n) l.
 Fixpoint dedup (l : list string) : list string :=
   match l with [] => [] | a :: r => if mem a r then dedup r else a :: dedup r end.
 Definition lost (a b : Z) : list string := filter (fun n => negb (mem n (dim_names b))) (dedup (dim_names a)).
@@ -132,8 +151,12 @@ Definition lost (a b : Z) : list string := filter (fun n => negb (mem n (dim_nam
 Definition wf_spoint (f : Z) (p : spoint) : Prop := map fst p = storage_names f.
 Definition wf_point (f : Z) (eds : list edim) (p : point) : Prop :=
   wf_spoint f (fst p) /\ length (snd p) = length eds.
+(* the source exists as a numpy record: the field names of its dtype (packed fields of its format, then its extra
+   dimensions) are pairwise distinct. Nothing else is asked of the names of the extra dimensions. *)
 Definition wf_las (l : lasdata) : Prop :=
-  std_known (l_fmt l) = true /\ NoDup (map ed_name (l_edims l)) /\ Forall (wf_point (l_fmt l) (l_edims l)) (l_pts l).
+  std_known (l_fmt l) = true /\ NoDup (record_names (l_fmt l) (l_edims l)) /\ Forall (wf_point (l_fmt l) (l_edims l)) (l_pts l).
+(* an extra dimension named like a packed field of format T *)
+Definition name_clash (T : Z) (eds : list edim) : Prop := exists e, In e eds /\ In (ed_name e) (storage_names T).
 (* a value of dimension n of the source does not fit the target's field of the same name *)
 Definition misfit (S T : Z) (sp : spoint) (n : string) : Prop :=
   exists v t c m, get_dim S sp n = Some (v, t) /\ sub_of T n = Some (c, m) /\ (v > sf_max m \/ v < 0).
